@@ -815,7 +815,8 @@ def check_c15(tier, t0):
     traces = os.path.join(wd, "traces.ndjson")
     out = os.path.join(wd, "out.json")
     art = os.path.join(REPLAYS, "C15", "draws")
-    run_harness(["scenarios", "--draws", draws, "--traces", traces, "--out", out, "--artefacts", art])
+    run_harness(["scenarios", "--draws", draws, "--typed-draws", "10" if tier == "thorough" else "2",
+                 "--traces", traces, "--out", out, "--artefacts", art])
     s = json.load(open(out))
     tv = msglevel.validate_traces(wd, traces, cfg="Pipeline.cfg", module="Pipeline.tla")
     arts = {a["id"]: a["artefact"] for a in s["artefacts"]}
@@ -828,8 +829,9 @@ def check_c15(tier, t0):
             key = detail.split(" ")[0][:60] if kind in ("ParsedDiffersFromGenerated", "NotInReferenceLayout") else detail[:40]
             vio.append({"sig": "C15|%s|%s|%s" % (r["scenario"], kind, key),
                         "replay": {"kind": "scenario", "scenario": r["scenario"], "artefact": arts.get(r["id"]), "deviation": d}})
-    log("[C15] %d scenario files x %s draws = %d pipeline runs, %d trace lines explained, %d runs flagged" %
-        (s["scenario_files"], draws, s["runs"], tv["lines"], len(tv["results"])))
+    log("[C15] %d scenario files x %s draws (+ 2 boundary draws, + %d runs through the typed sample API) = %d pipeline runs, "
+        "%d trace lines explained, %d runs flagged" %
+        (s["scenario_files"], draws, s.get("typed_api_runs", 0), s["runs"], tv["lines"], len(tv["results"])))
     if s["runs"] == 0:
         raise ToolError("no scenario could be run")
     cov = {
@@ -839,7 +841,9 @@ def check_c15(tier, t0):
         "rule": "every scenario file under test_scenarios (all 30 types) x N random draws; each draw is one run "
                 "generate_mt -> publish_mt -> validate_mt -> parse_mt whose four stage results are validated by TLC against Pipeline.tla "
                 "(stage order, published tags accepted by the reference layout via Walker!Walk, no validation error, parsed JSON exactly "
-                "equal to generated JSON); every run is a distinct random draw",
+                "equal to generated JSON); every run is a distinct random draw; per file two boundary draws (every substr-cut text "
+                "exactly at its limit; the cut right after a blank) and N' draws through the typed sample API "
+                "(generate_sample_with_config::<T> -> to_mt_message -> validate -> parse), validated by the same trace specification",
         "samples": s["samples"] or [{}],
         "scenario_files": s["scenario_files"], "draws_per_file": int(draws),
         "exhaustive": False,
